@@ -25,6 +25,9 @@ Inductive mkind := KFunction | KStatic | KClassm | KProperty | KValue
 Record member := mkmember { m_kind : mkind; m_uid : Z }.   (* m_uid: identity of the bound object *)
 
 Definition is_decl (m : member) : bool := match m_kind m with KDecl => true | _ => false end.
+(* class attribute access goes through __get__ and returns something else *)
+Definition wraps (m : member) : bool :=
+  match m_kind m with KStatic | KClassm | KFunction => true | _ => false end.
 
 Record cls := mkcls {
   body : list (name * member);    (* the class's own __dict__ before decoration *)
@@ -239,11 +242,15 @@ Section Deco.
   Definition decorate_old := decorate_with resolve_old.
 
   (* first instantiation of a lazily bootstrapped class: the __new__ hook
-     removes itself (base class is `object` in this scope) *)
+     removes itself (base class is `object` in this scope) and stores back what
+     `spec_cls.__new__` evaluated to at decoration time: for a staticmethod
+     (every function named __new__ is one) or classmethod that is the object
+     obtained through the descriptor, not the descriptor itself.  The user's
+     object is assumed truthy. *)
   Definition instantiate (c : cfg) (k : cls) (d : list (name * entry)) : list (name * entry) :=
     if c_lazy c then
       match lookup "__new__" (body k) with
-      | Some m => dset "__new__" (EUnwrapped m) d
+      | Some m => dset "__new__" (if wraps m then EUnwrapped m else EUser m) d
       | None => dset "__new__" (EGen GNewPlain true) d
       end
     else d.
